@@ -83,6 +83,9 @@ pub fn guard<T>(op: &str, f: impl FnOnce() -> T) -> Result<T, Fail> {
         Ok(v) => Ok(v),
         Err(_) => {
             let (loc, msg) = take_panic().unwrap_or(("?".into(), "?".into()));
+            if let Some((key, detail)) = crate::lockwatch::classify(&msg) {
+                return Err(Fail::new(format!("{}|{}", key, op), format!("in {}: {}", op, detail)));
+            }
             Err(Fail::new(
                 format!("panic|{}|{}|{}", loc, normalise_msg(&msg), op),
                 format!("panic in {} at {}: {}", op, loc, msg),
